@@ -29,7 +29,7 @@ STUBS = ['scheduler: real threads, simulated choice of who runs (baton passing a
 ASSUMPTIONS = ['C-extension calls are atomic w.r.t. Python-visible state (BLAS/LAPACK wrappers drop the GIL only around Fortran routines that touch their argument buffers)',
                'OPENBLAS_NUM_THREADS=1 (bit-reproducible BLAS); GLPK/DSDP/CHOLMOD are the prebuilt wheel binaries',
                'schedules and histories are sampled: a clean batch is evidence, not proof']
-TIERS = {'quick': {'units': 96, 'wall_cap': 80.0, 'unit_timeout': 300.0},
+TIERS = {'quick': {'units': 72, 'wall_cap': 80.0, 'unit_timeout': 300.0},
          'thorough': {'units': 4000, 'wall_cap': 1150.0, 'unit_timeout': 400.0}}
 RUNS_PER_UNIT = 12
 
